@@ -588,6 +588,38 @@ func (iv *Inv) guardRejects(fn *ssa.Function, isField func(ssa.Value) bool, req 
 				rej = append(rej, boolValueEdges(fn, call, false)...)
 			}
 		}
+		if req == reqMacc {
+			// the membership test written in place: `_, found := maccPerms[field]`
+			found := map[ssa.Value]bool{}
+			for _, b := range fn.Blocks {
+				for _, in := range b.Instrs {
+					lk, ok := in.(*ssa.Lookup)
+					if !ok || !lk.CommaOk || !through(lk.Index) || lk.Referrers() == nil {
+						continue
+					}
+					u, ok := lk.X.(*ssa.UnOp)
+					if !ok {
+						continue
+					}
+					if g, ok := u.X.(*ssa.Global); !ok || g.Name() != "maccPerms" {
+						continue
+					}
+					for _, ref := range *lk.Referrers() {
+						if ex, ok := ref.(*ssa.Extract); ok && ex.Index == 1 {
+							found[ex] = true
+						}
+					}
+				}
+			}
+			if len(found) > 0 {
+				rej = append(rej, EdgesWhere(fn, func(base ssa.Value) (bool, bool) {
+					if found[base] {
+						return false, true
+					}
+					return false, false
+				})...)
+			}
+		}
 	}
 	for _, e := range rej {
 		if FailsFrom(e.To()) {
@@ -2096,6 +2128,12 @@ func (iv *Inv) collectorConst() (string, bool) {
 
 // keyNonEmpty: the store key is provably non-empty.
 func (iv *Inv) keyNonEmpty(fn *ssa.Function, at ssa.Instruction, k ssa.Value) (bool, string) {
+	// a key built by a single-return helper of the module is the expression the helper computes
+	if k2 := iv.w.inlineResult(k); k2 != k {
+		if b, ok := iv.w.EvalBytes(k2, 0); ok && len(b) > 0 {
+			return true, "g3: constant non-empty key (built by a key helper)"
+		}
+	}
 	if b, ok := iv.w.EvalBytes(k, 0); ok {
 		if len(b) > 0 {
 			return true, "g3: constant non-empty key"
